@@ -37,7 +37,9 @@ void random_data(void* data, size_t bytes) {
 }
 
 int64_t random_int(int64_t low, int64_t high) {
-  int64_t range = high - low + 1;
+  // high - low + 1 can be as large as 2^63 (low = 0, high = INT64_MAX), which
+  // does not fit in an int64_t; do the arithmetic on unsigned values
+  uint64_t range = static_cast<uint64_t>(high) - static_cast<uint64_t>(low) + 1;
   if (range > 0xFFFFFFFF) {
     return low + (random_object<uint64_t>() % range);
   } else if (range > 0xFFFF) {
